@@ -87,6 +87,17 @@ impl PeersStore {
     }
 }
 
+#[cfg(mainline_verif)]
+impl PeersStore {
+    /// Verification hook: (info_hash, number of peers), most recently used first.
+    pub fn verif_sizes(&self) -> Vec<(String, usize)> {
+        self.info_hashes
+            .iter()
+            .map(|(k, v)| (k.to_string(), v.len()))
+            .collect()
+    }
+}
+
 #[cfg(test)]
 mod test {
     use super::*;
